@@ -194,6 +194,7 @@ def judge_wm(ctx, root, case):
     if not pre.must_accept:
         ctx.discarded('tree not consistent before the save')
         return
+    shared = None
     for step, st in enumerate(case['saves']):
         sizes0 = sizes_on_disk(root)
         mans0 = set(sizes0)
@@ -206,12 +207,26 @@ def judge_wm(ctx, root, case):
         case['_w'] = w
         try:
             with audit.Recording(root) as rec:
-                m = ManifestRecursiveLoader(os.path.join(root, 'Manifest'),
-                                            verify_openpgp=False, hashes=['SHA256'])
+                if case.get('one_loader') and shared is not None:
+                    m = shared      # history: the same loader object saves again
+                elif case.get('profile'):
+                    # options given to the constructor of a profile-using loader
+                    from gemato.profile import get_profile_by_name
+                    m = ManifestRecursiveLoader(
+                        os.path.join(root, 'Manifest'), verify_openpgp=False,
+                        hashes=['SHA256'], profile=get_profile_by_name(case['profile']),
+                        sort=False, compress_watermark=w, compress_format=st['fmt'])
+                else:
+                    m = ManifestRecursiveLoader(os.path.join(root, 'Manifest'),
+                                                verify_openpgp=False, hashes=['SHA256'])
+                shared = m
                 if st.get('dirty'):
                     m.update_entries_for_directory('')
-                m.save_manifests(force=st['force'], compress_watermark=w,
-                                 compress_format=st['fmt'])
+                if case.get('profile') and not (case.get('one_loader') and step):
+                    m.save_manifests(force=st['force'])
+                else:
+                    m.save_manifests(force=st['force'], compress_watermark=w,
+                                     compress_format=st['fmt'])
         except Exception as exc:
             from gemato.exceptions import GematoException
             ctx.violation('wm-save-raises:' + adapt.exc_key(exc),
@@ -334,6 +349,15 @@ def run_unit(u, ctx):
                                   'force': rng.random() < 0.6,
                                   'dirty': rng.random() < 0.6})
                 case['saves'] = saves
+                case['one_loader'] = rng.random() < 0.5
+                # (the ebuild profile would want Manifests of its own in some
+                # directories; only use it where the tree has no sub-directories
+                # the profile cares about: it is used for its option handling)
+                # (a Manifest the profile newly creates in a directory that is also
+                # visible through a directory symlink would be aliased: U15)
+                case['profile'] = 'ebuild' if rng.random() < 0.3 and not any(
+                    n['t'] == 'l' and n.get('kind') == 'dir'
+                    for n in case['skel']['nodes']) else None
                 judge_wm(ctx, root, case)
             if j == 0:
                 ctx.sample({'mutations': case['mutations'], 'probes': case['probes'],
